@@ -616,6 +616,8 @@ func main() {
 	legacyPurgeVariant = legacyPurges()
 	res.Note("deprecatedstate purges emptied system contracts in Update: %v (selects the Lean model variant)", legacyPurgeVariant)
 	checkStateCases(f, res, drv, directedStateCases(), "state-directed")
+	checkStateCases(f, res, drv, versionSwitchCases(), "state-version-switch")
+	checkInvalidDiffs(f, res, drv, genInvalidCases(r.Fork(5_000_000), f.Scale(60, 1200)))
 	var scs []*StateCase
 	for i := 0; i < f.Scale(300, 6000); i++ {
 		rr := r.Fork(uint64(3_000_000 + i))
